@@ -132,6 +132,12 @@ def stage_cfgs(pid, tier, rng):
                             gen.append(C(inputs=[[1, 2]] if kind == "FMap" or par == 2 else [[1, 2, 3]], **base))
                     rnd.append(C(inputs=[[1, 2, 3, 4, 5]], **base))
                     rnd.append(C(inputs=[[1, 2, 3, 4, 5, 6]], **dict(base, gate=False)))
+            if kind == "ForEach":
+                # ForEach ignores what its function returns: with a failing function every element is still visited once
+                for mode in ("lift", "try"):
+                    for par in (1, 2, 3):
+                        rnd.append(C(kind=kind, forked=True, par=par, cap=1, mode=mode, fail=[1, 2, 4, 5], inputs=[[1, 2, 3, 4, 5, 6]], gate=par == 2))
+                mc.append(C(kind=kind, forked=True, par=2, cap=0, mode="lift", fail=[1, 2], inputs=[[1, 2, 3]], gate=False))
             for par in (4, 8):
                 rnd.append(C(kind=kind, forked=True, par=par, cap=2, mode="try" if kind in ("Map", "FMap") else "pure", pred=[1, 3],
                              fail=[2] if kind in ("Map", "FMap") else [], inputs=[[3, 1, 2, 2, 1, 3, 4, 4]], gate=kind != "Void" and par == 4))
@@ -565,6 +571,10 @@ def other_cfgs(pid, th, rng):
         for k in [0, 1, 2, 3]:
             for cap in [0, 1]:
                 out.append(C(kind="Join", cap=cap, inputs=[[100 * (i + 1) + j for j in range(1, 3 + (1 if th else 0))] for i in range(k)]))
+                if k == 3:
+                    # wide joins
+                    for kk in (5, 6, 9):
+                        out.append(C(kind="Join", cap=cap, inputs=[[100 * (i + 1) + j for j in range(1, 3)] for i in range(kk)]))
                 if k >= 1:
                     # the same channel handed to Join more than once
                     out.append(C(kind="Join", cap=cap, inputs=[[100 * (i + 1) + j for j in range(1, 4)] for i in range(k)], dup=[0] if k < 3 else [0, 2]))
@@ -653,10 +663,15 @@ def special_scheds(pid, th, rng):
             # values still in the input buffer when the pump notices the cancel / the close: the sends and the cancel are issued back to back
             for k in range(1, cap + 1):
                 for pre in ([], [S()], [S(), S(), R()], [R()]):
-                    for end in ({"c": "cancel"}, {"c": "close", "i": 0}):
+                    for end in ([{"c": "cancel"}], [{"c": "close", "i": 0}], [{"c": "close", "i": 0}, {"c": "cancel"}]):
                         for rep in range(3):        # the pump's select picks an arm at random: repeat
-                            out.append({"cfg": C(kind="New", cap=cap, inputs=[list(range(1, 9))]), "cmds": pre + [B(*([S()] * k + [end]))],
+                            out.append({"cfg": C(kind="New", cap=cap, inputs=[list(range(1, 9))]), "cmds": pre + [B(*([S()] * k + end))],
                                         "epilogue": "closewait", "origin": "fill-and-end"})
+            # the sender closes and the context is cancelled at the same time (with and without a backlog)
+            for pre in ([], [S()], [S(), S(), S()]):
+                for rep in range(4):
+                    out.append({"cfg": C(kind="New", cap=cap, inputs=[list(range(1, 9))]), "cmds": pre + [B({"c": "close", "i": 0}, {"c": "cancel"})],
+                                "epilogue": "closewait", "origin": "close-and-cancel"})
             # a send arriving exactly when the receiver frees a slot while a backlog is queued (the new value must not overtake)
             for k in (cap + 2, 2 * cap + 3):
                 for rep in range(3):
